@@ -68,19 +68,32 @@ Fixpoint add_fields (pm : pmap) (provs : list prov) (st : N) (fs : list (N*N)) :
               | None => add_fields (pm ++ [(snd f, (length provs, 0))]) (provs ++ [mkfield st f]) st r
               end
   end.
-Fixpoint pass2 (pm : pmap) (provs : list prov) (ss : list prov) : result (pmap * list prov) :=
-  match ss with
-  | [] => OK (pm, provs)
-  | s :: r => match hd_error (requires s) with
-              | None => Err 7
-              | Some st => match assoc st pm with
-                           | None => Err 2
-                           | Some _ => match add_fields pm provs st (sfields s) with
-                                       | OK (pm', provs') => pass2 pm' provs' r
-                                       | Err e => Err e end
-                           end
-              end
+(* second pass: Struct expansions. The source of a struct may itself be a field of a struct expanded later: such an
+   expansion is put back behind the others (at most once per waiting struct between two successful expansions), so the
+   order of the declaration does not decide acceptance (graph.go:NewGraph, "pending"/"deferred"). *)
+Definition has_field_of (st : N) (ss : list prov) : bool :=
+  existsb (fun s => existsb (fun f : N * N => N.eqb (snd f) st) (sfields s)) ss.
+Fixpoint pass2_loop (fuel : nat) (pm : pmap) (provs : list prov) (pending : list prov) (deferred : nat) : result (pmap * list prov) :=
+  match fuel with
+  | 0 => Err 4
+  | S fuel =>
+      match pending with
+      | [] => OK (pm, provs)
+      | s :: r => match hd_error (requires s) with
+                  | None => Err 7
+                  | Some st => match assoc st pm with
+                               | None => if has_field_of st r && Nat.leb deferred (length r)
+                                         then pass2_loop fuel pm provs (r ++ [s]) (S deferred)
+                                         else Err 2
+                               | Some _ => match add_fields pm provs st (sfields s) with
+                                           | OK (pm', provs') => pass2_loop fuel pm' provs' r 0
+                                           | Err e => Err e end
+                               end
+                  end
+      end
   end.
+Definition pass2 (pm : pmap) (provs : list prov) (ss : list prov) : result (pmap * list prov) :=
+  pass2_loop (S (length ss * (length ss + 3))) pm provs ss 0.
 
 Record bfs := { b_nodes : list nodek; b_edges : list (list edge); b_redges : list (list nat);
                 b_pnode : list (nat * nat); b_anode : list (N * nat); b_queue : list nat; b_visited : list nat }.
